@@ -384,8 +384,14 @@ fn sig(t: &Tok) -> (String, String, i16, u16, u16, i32, u8) {
 pub fn c12_case(ctx: &mut Ctx, rng: &mut Rng) {
     // SPACE undefined => ignore_space must be rejected with an error
     if rng.chance(0.05) {
-        let cfg = GenCfg { max_cats: 1, ..Default::default() }; // only DEFAULT
-        let spec = gen_dict(rng, &cfg);
+        // only DEFAULT - or several categories of which the one that would be SPACE has a look-alike name
+        let lookalike = rng.chance(0.5);
+        let cfg = GenCfg { max_cats: if lookalike { 4 } else { 1 }, ..Default::default() };
+        let mut spec = gen_dict(rng, &cfg);
+        if let Some(i) = spec.cat_index("SPACE") {
+            spec.cats[i].name = ["Space", "space", "SPACES", "XSPACE", "SPACE_"][rng.below(5)].to_string();
+            ctx.bucket("category_with_a_name_resembling_SPACE");
+        }
         if spec.cat_index("SPACE").is_none() {
             if let BuildOutcome::Ok(d) = build_spec(&spec) {
                 ctx.eval();
